@@ -222,6 +222,27 @@ def run(ctx):
                 d = os.path.join(work, "tie%d" % i)
                 lib, exc, _ = c01_tie.run_shroud(ytext, d)
                 if exc is not None or lib is None:
+                    # configuration independence at generation time: the same description with F_CFI off
+                    yd = yaml.safe_load(ytext)
+                    if (yd.get("options") or {}).get("F_CFI") and isinstance(exc, SystemExit):
+                        yd["options"]["F_CFI"] = False
+                        common.rmtree(d)
+                        lib2, exc2, _ = c01_tie.run_shroud(yaml.safe_dump(yd, sort_keys=False), d)
+                        ctx.count(1)
+                        if exc2 is None and lib2 is not None:
+                            import re as _re
+                            tmpl = str(exc).replace("Error with template: ", "")
+                            if _re.search(r"c_var_context|cxx_T|hnamefunc0|c_var_size|C_array_type", tmpl):
+                                # one root cause: arg_to_CFI clones the function without the context / size
+                                # arguments (and cxx_T) that arg_to_buffer sets up for vector, ** and cdesc results
+                                m = "context-or-vector-argument"
+                            else:
+                                m = _re.sub(r"[^A-Za-z0-9_{}]+", "-", tmpl).strip("-")[:60]
+                            ctx.fail("c01:F_CFI-generation-fails:" + m,
+                                     "with F_CFI=true Shroud stops with %r on a description it wraps with F_CFI=false "
+                                     "(arg_to_CFI does not set up the context/len arguments that arg_to_buffer adds)" % (str(exc),),
+                                     {"yaml": ytext, "config": {"F_CFI": True, "language": yd.get("language")},
+                                      "function": None, "values": None})
                     rejected += 1
                     if isinstance(exc, (AssertionError, KeyError, AttributeError, TypeError, IndexError)) and rejected <= 3:
                         ctx.sample({"generator_description_rejected": repr(exc)[:200], "yaml": ytext[:600]})
@@ -262,6 +283,10 @@ def run(ctx):
         for tag, funcs, cxx in libs:
             cfgs = full if (thorough or ctx.broken) else quick_cfg
             nrun += c01_oracle.check_library(ctx, work, tag, "qlib", funcs, cxx, cfgs, workers=8)
+        # F_CFI wrappers whose helpers no other function requests (fixed 6fbe426)
+        nrun += c01_oracle.check_library(ctx, work, "cfih", "qlib", [
+            c01_oracle.Func("h0", "void", [c01_oracle.CstrIn("s0")]),
+            c01_oracle.Func("h1", "void", [c01_oracle.StringInout("s1")])], True, [(1, 0)], workers=2)
         # the same C-subset description as a C library and as a C++ library: identical traces required
         cfuncs = c01_oracle.fixed_spec(False)
         nrun += c01_oracle.check_library(ctx, work, "csub", "qlib", cfuncs, True, full if thorough else [(0, 1)], workers=8)
